@@ -23,6 +23,7 @@ type C08Header struct {
 	Required  bool    `json:"required"`
 	ByContent bool    `json:"by_content"` // defined by `content` instead of `schema`
 	Type      string  `json:"type"`       // integer | string
+	Format    string  `json:"format,omitempty"` // int32 (integers only)
 	Max       *float64 `json:"max,omitempty"`
 	Value     *string `json:"value"` // nil = the response does not carry it
 }
@@ -53,7 +54,7 @@ type C08Obs struct {
 }
 
 func (h *C08Header) gschema() *GSchema {
-	g := &GSchema{HasTypes: true, Types: []string{h.Type}}
+	g := &GSchema{HasTypes: true, Types: []string{h.Type}, Format: h.Format}
 	g.Max = h.Max
 	return g
 }
@@ -227,7 +228,11 @@ func c08Coq(c *C08Case, o *C08Obs) string {
 			if found {
 				switch h.Type {
 				case "integer":
-					if n, err := strconv.ParseInt(*val, 0, 64); err == nil {
+					bits := 64
+					if h.Format == "int32" {
+						bits = 32
+					}
+					if n, err := strconv.ParseInt(*val, 0, bits); err == nil {
 						decoded = "(Some " + coqJSON(float64(n)) + ")"
 					}
 				default:
@@ -313,7 +318,7 @@ func c08Random(r *Rng) C08Case {
 	hdrVals := map[string]*string{}
 	for _, name := range []string{"X-A", "X-B"} {
 		if r.Chance(65) {
-			v := Pick(r, []string{"5", "7", "abc", "12", "0"})
+			v := Pick(r, []string{"5", "7", "abc", "12", "0", "2147483647", "2147483648", "-2147483649", "4294967297"})
 			hdrVals[name] = &v
 		}
 	}
@@ -324,6 +329,9 @@ func c08Random(r *Rng) C08Case {
 				h := C08Header{Name: name, Required: r.Bool(), Type: Pick(r, []string{"integer", "integer", "string"}), Value: hdrVals[name], ByContent: r.Chance(4)}
 				if r.Chance(40) {
 					h.Max = fp(6)
+				}
+				if h.Type == "integer" && r.Chance(35) {
+					h.Format = "int32"
 				}
 				resp.Headers = append(resp.Headers, h)
 			}
